@@ -79,6 +79,12 @@ class RawPeer:
     def send_spec(self, spec):
         self.world.rec('peer', what='send', spec={k: v for k, v in spec.items() if k not in ('data', 'md', 'raw')},
                        t_=spec.get('t', 'RAW'))
+        if 'text' in spec:
+            # a websocket TEXT message (message framing only): not an RSocket frame at all
+            if not self.tcp:
+                ws = self.link.server_ws if self.role == 'server' else self.link.client_ws
+                ws.raw_send_text(spec['text'])
+            return
         self.send(build_frame(spec))
 
     def _on_frame(self, f):
